@@ -129,6 +129,22 @@ func Build(o Options) (*Result, error) {
 	if o.OSHook {
 		args = append(args, "-tags", "verifhook")
 	}
+	if o.RepoDir != "/repo" {
+		// checking another tree (a scratch worktree with a seeded change): same
+		// harness module, the replace directive pointed at that tree
+		mod, err := os.ReadFile(filepath.Join(harness, "go.mod"))
+		if err != nil {
+			return nil, err
+		}
+		mf := filepath.Join(o.Scratch, "ov-"+o.Cmd, "go.mod")
+		if err := os.WriteFile(mf, []byte(strings.ReplaceAll(string(mod), "=> /repo", "=> "+o.RepoDir)), 0o644); err != nil {
+			return nil, err
+		}
+		if sum, err := os.ReadFile(filepath.Join(o.RepoDir, "go.sum")); err == nil {
+			_ = os.WriteFile(filepath.Join(o.Scratch, "ov-"+o.Cmd, "go.sum"), sum, 0o644)
+		}
+		args = append(args, "-modfile="+mf)
+	}
 	args = append(args, "./cmd/"+o.Cmd)
 	cmd := exec.Command("go", args...)
 	cmd.Dir = harness
